@@ -119,3 +119,131 @@ package scan
 //@   at call (*pkg/scan.rangeIterator).Next#0 before: ghost it.e0 := big(randM); ghost it.e := big(randM); ghost it.last := big(randM)
 //@   at call (*pkg/scan.rangeIterator).Next#0 after: use orbit_surj(big(G), big(P), 1, it.e0); use orbit_surj(big(G), big(P), 2, it.e0); use orbit_range(big(G), big(P), it.e); use orbit_period(big(G), big(P), it.e0)
 //@   at call (*math/big.Int).Set#2 after: if !it.stop then ghost it.e0 := it.e
+
+// ---------------------------------------------------------------------------------------------
+// C07 / C13: packet generator stage. One row per received request:
+//   failed request      -> exactly one error packet carrying the request's own error, no Fill
+//   Fill fails          -> exactly one error packet carrying Fill's error
+//   otherwise           -> exactly one packet carrying the buffer that was filled for this request
+// (send? = the guarded send: sent, or the scan was cancelled)
+//@ func (*packetGenerator).Packets$1
+//@   props C07 C13 C12
+//@   observe NewSerializeBuffer, Fill
+//@   loop 0 row cancel:  [ctxdone ; close out] -> exit
+//@   loop 0 row closed:  [recv in as (r, false) ; close out] -> exit
+//@   loop 0 row errreq:    [recv in as (r, true) ; send out bind_x] when r.Err != nil && x.Err == r.Err && x.Buf == nil -> continue
+//@   loop 0 row errreq_c:  [recv in as (r, true) ; ctxdone] when r.Err != nil -> continue
+//@   loop 0 row fillerr:   [recv in as (r, true) ; call NewSerializeBuffer() as (buf) ; call Fill(g.filler, buf, r) as (ferr) ; send out bind_x]
+//@                            when r.Err == nil && ferr != nil && x.Err == ferr && x.Buf == nil -> continue
+//@   loop 0 row built:     [recv in as (r, true) ; call NewSerializeBuffer() as (buf) ; call Fill(g.filler, buf, r) as (ferr) ; send out bind_x]
+//@                            when r.Err == nil && ferr == nil && x.Buf == buf && x.Err == nil -> continue
+//@   loop 0 row fill_c:    [recv in as (r, true) ; call NewSerializeBuffer() as (buf) ; call Fill(g.filler, buf, r) as (ferr) ; ctxdone] when r.Err == nil -> continue
+//@ func (*packetGenerator).Packets
+//@   props C07
+//@   entry row start: [go (*packetGenerator).Packets$1] -> exit
+
+// multi-generator: exactly numWorkers generator instances, all reading the same request channel, merged
+//@ func (*packetMultiGenerator).Packets
+//@   props C07
+//@   observe Packets, MergeBufferDataChan
+//@   requires g.numWorkers >= 0
+//@   loop 0 invariant bounds: 0 <= i && i <= g.numWorkers && len(workers) == g.numWorkers
+//@   loop 0 row spawn: [call Packets(g.gen, ctx, in) as (c)] -> continue
+//@   loop 0 row merge: [call MergeBufferDataChan(ctx, workers) as (m)] when i == g.numWorkers && ret == m -> exit
+
+// merger: every element received from a worker is forwarded once; the output is closed only after all
+// multiplexers have returned
+//@ func MergeBufferDataChan$1
+//@   props C07 C12
+//@   observe (*sync.WaitGroup).Done
+//@   loop 0 row cancel:  [ctxdone ; call Done(_)] -> exit
+//@   loop 0 row closed:  [recv c as (e, false) ; call Done(_)] -> exit
+//@   loop 0 row forward: [recv c as (e, true) ; send out e] -> continue
+//@   loop 0 row fwd_c:   [recv c as (e, true) ; ctxdone ; call Done(_)] -> exit
+//@ func MergeBufferDataChan$2
+//@   props C07 C12
+//@   observe (*sync.WaitGroup).Wait
+//@   entry row closer: [call Wait(_) ; close out] -> exit
+//@ func MergeBufferDataChan
+//@   props C07 C12
+//@   observe (*sync.WaitGroup).Add
+//@   entry row setup: [call Add(_, len(channels))] -> loop 0
+//@   loop 0 row spawn:  [go MergeBufferDataChan$1] -> continue
+//@   loop 0 row closer: [go MergeBufferDataChan$2] -> exit
+
+// packet source: a generator that fails to start yields exactly one error packet on a closed channel
+//@ func (*packetSource).Packets
+//@   props C07 C13
+//@   observe GenerateRequests, Packets
+//@   entry row generr: [call GenerateRequests(s.reqgen, ctx, r) as (reqs, gerr) ; send bind_c bind_x ; close bind_c2] when gerr != nil && c == c2 && ret == c && x.Err == gerr && x.Buf == nil -> exit
+//@   entry row ok:     [call GenerateRequests(s.reqgen, ctx, r) as (reqs, gerr) ; call Packets(s.pktgen, ctx, reqs) as (pk)] when gerr == nil && ret == pk -> exit
+
+// packet engine: the source feeds the sender, completion = the sender's done, both error streams are merged
+//@ func (*PacketEngine).Start
+//@   props C07
+//@   observe Packets, SendPackets, ReceivePackets, mergeErrChan
+//@   entry row wiring: [call Packets(e.src, ctx, r) as (pk) ; call SendPackets(e.snd, ctx, pk) as (done, errc1) ; call ReceivePackets(e.rcv, ctx) as (errc2) ; call mergeErrChan(ctx, bind_cs) as (m)]
+//@                       when ret0 == done && ret1 == m && len(cs) == 2 && cs[0] == errc1 && cs[1] == errc2 -> exit
+
+// error merger (same shape as the packet merger; the send is guarded)
+//@ func mergeErrChan$1
+//@   props C07 C08 C12
+//@   observe (*sync.WaitGroup).Done
+//@   loop 0 row cancel:  [ctxdone ; call Done(_)] -> exit
+//@   loop 0 row closed:  [recv c as (e, false) ; call Done(_)] -> exit
+//@   loop 0 row forward: [recv c as (e, true) ; send? out e] -> continue
+//@ func mergeErrChan$2
+//@   props C07 C08 C12
+//@   observe (*sync.WaitGroup).Wait
+//@   entry row closer: [call Wait(_) ; close out] -> exit
+//@ func mergeErrChan
+//@   props C07 C08 C12
+//@   observe (*sync.WaitGroup).Add
+//@   entry row setup: [call Add(_, len(channels))] -> loop 0
+//@   loop 0 row spawn:  [go mergeErrChan$1] -> continue
+//@   loop 0 row closer: [go mergeErrChan$2] -> exit
+
+// ---------------------------------------------------------------------------------------------
+// C08: application scan engine
+// worker: per received request: failed request -> one error, no probe; otherwise exactly one probe, then
+// one error, or one result, or nothing
+//@ func (*GenericEngine).worker
+//@   props C08 C13 C12
+//@   observe Scan, Put, (*sync.WaitGroup).Done
+//@   loop 0 row cancel:  [ctxdone ; call Done(_)] -> exit
+//@   loop 0 row closed:  [recv requests as (r, false) ; call Done(_)] -> exit
+//@   loop 0 row errreq:  [recv requests as (r, true) ; send? errc r.Err] when r.Err != nil -> continue
+//@   loop 0 row scanerr: [recv requests as (r, true) ; call Scan(e.scanner, ctx, r) as (res, serr) ; send? errc serr] when r.Err == nil && serr != nil -> continue
+//@   loop 0 row result:  [recv requests as (r, true) ; call Scan(e.scanner, ctx, r) as (res, serr) ; call Put(e.results, res)] when r.Err == nil && serr == nil && res != nil -> continue
+//@   loop 0 row nothing: [recv requests as (r, true) ; call Scan(e.scanner, ctx, r) as (res, serr)] when r.Err == nil && serr == nil && res == nil -> continue
+
+// Start: generator failure -> one error, both channels closed; otherwise the coordinator goroutine
+//@ func (*GenericEngine).Start
+//@   props C08 C12
+//@   observe GenerateRequests
+//@   entry row generr: [call GenerateRequests(e.reqgen, ctx, r) as (reqs, gerr) ; send bind_ec gerr ; close bind_ec2 ; close bind_dc] when gerr != nil && ec == ec2 && ret0 == dc && ret1 == ec -> exit
+//@   entry row start:  [call GenerateRequests(e.reqgen, ctx, r) as (reqs, gerr) ; go (*GenericEngine).Start$1] when gerr == nil -> exit
+// coordinator: workerCount workers on the same request channel; completion only after all of them returned
+//@ func (*GenericEngine).Start$1
+//@   props C08 C12
+//@   observe (*sync.WaitGroup).Add, (*sync.WaitGroup).Wait
+//@   requires e.workerCount >= 0
+//@   loop 0 invariant bounds: 1 <= i && i <= e.workerCount + 1
+//@   loop 0 row spawn: [call Add(_, 1) ; go (*GenericEngine).worker(e, ctx, _, requests, errc)] -> continue
+//@   loop 0 row join:  [call Wait(_) ; close errc ; close done] when i == e.workerCount + 1 -> exit
+
+// result hand-off: Put is a guarded send on the internal channel; the copier forwards each element once
+//@ func (*resultChan).Put
+//@   props C08 C12
+//@   entry row put: [send? c.internalResults r] -> exit
+//@ func NewResultChan$1
+//@   props C08 C12
+//@   loop 0 row cancel:  [ctxdone ; close results] -> exit
+//@   loop 0 row forward: [recv internalResults as (v, _) ; send? results v] -> loop 0
+//@   loop 0 row fwd_c:   [recv internalResults as (v, _) ; ctxdone ; close results] -> exit
+
+// C15: every probe is charged exactly once, before it starts
+//@ func (*rateLimitScanner).Scan
+//@   props C15
+//@   observe Take, Scan
+//@   entry row charged: [call Take(s.limiter) ; call Scan(s.Scanner, ctx, r) as (res, e)] when ret0 == res && ret1 == e -> exit
